@@ -157,9 +157,18 @@ def check_component(res, binp, entry, tier, seed, workdir, proof_broken=None):
         f"{len(code2)} cases where the property oracle fails on the implementation")
     classify = getattr(cm, "classify", None)
     unknown2, unknown1 = [], []
+    known_param = getattr(cm, "KNOWN_PARAM", {})
     for i in code2 + code1:
-        key = classify(cases[i], outs[i]) if classify else None
-        if key is not None and key in known:
+        key = classify(cases[i], outs[i]) if (classify and i in code2) else None
+        still_bad = False
+        if key is not None and key in known and is_trace and key in known_param:
+            # re-validate the rest of the trace with exactly this known class exempted
+            c2 = [cases[i][0] + known_param[key]]
+            f2, e2 = qv.mon_eval_cases(module, [c2], [outs[i]])
+            still_bad = bool(f2 or e2)
+            if still_bad:
+                where[i] = f2[0][2] if f2 else -1
+        if key is not None and key in known and not still_bad:
             if key not in [k for k, _ in res.known]:
                 res.known.append((key, known[key]))
         elif i in code2:
